@@ -6,6 +6,7 @@ import (
 	"go/constant"
 	"go/token"
 	"go/types"
+	"golang.org/x/tools/go/types/typeutil"
 	"sort"
 	"strings"
 
@@ -195,6 +196,9 @@ func (f *Frame) invoke(st *State, fi *FuncInfo, args []Term, tsub map[*types.Typ
 		md, mp := fi.modelFor(f.pk)
 		return f.inline(st, mp, md, nil, args, tsub, true, pos)
 	case KSpec:
+		if vc.fi != nil && vc.fi.Opaque[fi.Obj.Name()] && fi.Obj.Pkg() == vc.fi.Obj.Pkg() {
+			return []Term{f.opaqueCall(st, fi, args, tsub, pos)}
+		}
 		return f.inline(st, fi.Pkg, fi.Decl, fi, args, tsub, true, pos)
 	case KInline:
 		if fi.Decl == nil || fi.Decl.Body == nil {
@@ -236,6 +240,94 @@ func (f *Frame) uf(fi *FuncInfo, args []Term) Term {
 		return Term{"(" + name + ")", rs}
 	}
 	return app(rs, name, args...)
+}
+
+// opaqueCall: an application of a spec function that is kept opaque in the function under verification. The set of
+// heap arrays the spec function reads is found once by evaluating its body on a scratch state and recording every
+// heap access; the application is then uf(args..., those arrays in the CURRENT state). Sound: the definition is a
+// function of exactly these inputs. Spec functions that look at the old state cannot be made opaque.
+func (f *Frame) opaqueCall(st *State, fi *FuncInfo, args []Term, tsub map[*types.TypeParam]types.Type, pos token.Pos) Term {
+	vc := f.vc
+	if vc.opaqueReads == nil {
+		vc.opaqueReads = map[*FuncInfo][]string{}
+	}
+	keys, ok := vc.opaqueReads[fi]
+	if !ok {
+		if vc.recordReads != nil {
+			vc.fail(pos, "nested opaque spec functions (%s)", fi.Key)
+		}
+		rec := map[string]bool{}
+		tmp := st.clone()
+		vc.recordID++
+		tmp.rec = vc.recordID
+		vc.recordReads, vc.recordOther = rec, false
+		saveBound := f.bound
+		f.inline(tmp, fi.Pkg, fi.Decl, fi, args, tsub, true, pos)
+		f.bound = saveBound
+		vc.recordReads = nil
+		if vc.recordOther {
+			vc.fail(pos, "spec function %s reads the old state and cannot be opaque", fi.Key)
+		}
+		usesAlloc := vc.prog.mentionsAllocation(fi.Pkg, fi.Decl, map[*ast.FuncDecl]bool{})
+		for k := range rec {
+			if k == allocKey && !usesAlloc {
+				continue // only the well-formedness FACTS attached to reads looked at the allocation mark, not the value
+			}
+			keys = append(keys, k)
+		}
+		sort.Strings(keys)
+		vc.opaqueReads[fi] = keys
+	}
+	sig := fi.Obj.Type().(*types.Signature)
+	if sig.Results().Len() != 1 {
+		vc.fail(pos, "opaque spec function %s must have one result", fi.Key)
+	}
+	rs := f.sortOf(sig.Results().At(0).Type())
+	all := append([]Term{}, args...)
+	for _, k := range keys {
+		all = append(all, vc.heapGet(st, k, vc.heapSort[k]))
+	}
+	name := "opq_" + mangle(fi.Key)
+	if !vc.ufs[name] {
+		vc.ufs[name] = true
+		var as []string
+		for _, a := range all {
+			as = append(as, a.Sort)
+		}
+		vc.funDecls = append(vc.funDecls, fmt.Sprintf("(declare-fun %s (%s) %s)", name, strings.Join(as, " "), rs))
+		vc.dropped["spec function "+fi.Obj.Name()+" kept opaque here (uninterpreted function of its arguments and the heap it reads)"]++
+	}
+	return app(rs, name, all...)
+}
+
+// mentionsAllocation: the spec function (or one it calls) uses an allocation-sensitive primitive.
+func (p *Program) mentionsAllocation(pk *packages.Package, decl *ast.FuncDecl, seen map[*ast.FuncDecl]bool) bool {
+	if decl == nil || decl.Body == nil || seen[decl] {
+		return false
+	}
+	seen[decl] = true
+	found := false
+	ast.Inspect(decl.Body, func(n ast.Node) bool {
+		call, ok := n.(*ast.CallExpr)
+		if !ok || found {
+			return !found
+		}
+		switch vsCallName(pk, call) {
+		case "IsAllocated", "ForallPtr", "ExistsPtr", "ForallOldPtr", "ForallOldMap":
+			found = true
+			return false
+		}
+		if fn := typeutil.StaticCallee(pk.TypesInfo, call); fn != nil {
+			if cfi := p.Funcs[fn.Origin()]; cfi != nil && cfi.Kind == KSpec && cfi.Decl != nil {
+				if p.mentionsAllocation(cfi.Pkg, cfi.Decl, seen) {
+					found = true
+					return false
+				}
+			}
+		}
+		return true
+	})
+	return found
 }
 
 // ------------------------------------------------------------ contracts
